@@ -122,6 +122,7 @@ def marshal(
                     command_code = event.value
                 if (
                     buffer_depleted
+                    and tpm_type is CommandResponseStream
                     and event.path == Path.from_string(".")
                     and event.value is ...
                 ):
